@@ -24,7 +24,7 @@ CHUNK = 4
 P = ops.param
 SHAPES = {
     "plain": ops.op("get", "/p", [], None, {"200": "json-model"}),
-    "opt3": ops.op("get", "/q", [P("q", "query", False, "string"), P("X-Trace", "header", False, "string"), P("limit", "query", False, "integer")],
+    "opt3": ops.op("get", "/q", [P("q", "query", False, "string"), P("X-Trace", "header", False, "string"), P("limit", "query", False, "integer"), P("since", "query", False, "date")],
                    None, {"200": "json-array-model"}),
     "multi": ops.op("post", "/m", [], {"kind": "json+multipart", "required": True}, {"200": "json-model"}),
     "bytes": ops.op("get", "/d", [], None, {"200": "octet"}),
